@@ -44,13 +44,17 @@ ObsInit == [ nsub   |-> 0, ndone |-> 0,
              rep    |-> 0,                      \* representation the result is served from (0: none delivered yet)
              asm    |-> [len |-> -1, cid |-> -1, ok |-> FALSE],   \* last body the server reassembled
              viol   |-> FALSE,                  \* an ETag change or a modelled sequencing violation was delivered
+             hidden |-> FALSE,                  \* the representation changed without any difference in the ETag (both
+                                                \* absent): the client cannot see it, outside the statement -> the
+                                                \* returned body is not judged
+             code   |-> 0, rk |-> 0,            \* method handed to the API; cache-key number of the first request
              nafter |-> 0,                      \* new requests the client sent after that
              bad    |-> {} ]
 
 Flag(o, c) == [o EXCEPT !.bad = @ \cup {c}]
 FlagIf(o, cond, c) == IF cond THEN Flag(o, c) ELSE o
 
-ObsSubmit(o, e) == [o EXCEPT !.nsub = @ + 1, !.N = e.len, !.cid = e.cid]
+ObsSubmit(o, e) == [o EXCEPT !.nsub = @ + 1, !.N = e.len, !.cid = e.cid, !.code = e.code]
 
 (* ---- a new request datagram ------------------------------------------------ *)
 ObsReqBlock1(o, e) ==
@@ -78,7 +82,11 @@ ObsReq(o, e) ==
     \* (more than MaxAfterViolation further requests) does not "end with an error"
     THEN FlagIf([o EXCEPT !.lr = lr, !.nafter = @ + 1], o.nafter + 1 > MaxAfterViolation,
                 "C05_ChangedOrViolatedEndsInError")
-  ELSE LET o1 == IF e.b1n >= 0 THEN ObsReqBlock1(o, e) ELSE o
+  ELSE LET \* every request of the transfer asks for what the application asked for: the same method and the same
+           \* options apart from Block1 / Block2 / Size (rk numbers the distinct (method, options) of a trace)
+           o0 == FlagIf([o EXCEPT !.rk = IF o.rk = 0 THEN e.rk ELSE o.rk],
+                        e.code # o.code \/ (o.rk # 0 /\ e.rk # o.rk), "C05_SameRequest")
+           o1 == IF e.b1n >= 0 THEN ObsReqBlock1(o0, e) ELSE o0
            o2 == IF e.b2n >= 0 THEN ObsReqBlock2(o1, e) ELSE o1
        IN [o2 EXCEPT !.lr = lr]
 
@@ -106,8 +114,9 @@ ObsResp(o, e) ==
       changed == o.b2act /\ ok2xx /\ e.b2n >= 0 /\ e.etag # o.etag     \* the representation changed between blocks
       first == /\ (lr.b2n < 0 \/ (lr.b2n = 0 /\ o.rep = 0))             \* answers the complete request
                /\ (lr.b1n < 0 \/ lr.b1m = 0)
+      unseen == o.b2act /\ ok2xx /\ e.b2n >= 0 /\ e.etag = o.etag /\ e.rid # o.rep
   IN IF b1viol \/ b2viol \/ changed THEN [o EXCEPT !.viol = TRUE]
-     ELSE LET o1 == IF e.b1n >= 0 THEN [o EXCEPT !.b1srv = e.b1s] ELSE o
+     ELSE LET o1 == IF unseen THEN [o EXCEPT !.hidden = TRUE] ELSE IF e.b1n >= 0 THEN [o EXCEPT !.b1srv = e.b1s] ELSE o
               o2 == IF first /\ ok2xx /\ e.code # 95
                       THEN [o1 EXCEPT !.rep = e.rid, !.etag = e.etag, !.b2next = e.plen, !.b2act = FALSE] ELSE o1
           IN IF e.b2n >= 0 /\ ok2xx
@@ -130,7 +139,7 @@ ObsDone(o, e) ==
               cok == /\ o.rep # 0 /\ Has(o.reps, o.rep)
                      /\ e.len = o.reps[o.rep].len /\ e.cok
                      /\ (e.len = 0 \/ e.cid = o.reps[o.rep].cid)
-          IN FlagIf(FlagIf(o2, ~sok, "C05_ServerBodyIntact"), ~cok, "C05_ClientBodyIntact")
+          IN FlagIf(FlagIf(o2, ~sok, "C05_ServerBodyIntact"), ~cok /\ ~o.hidden, "C05_ClientBodyIntact")
 
 ObsEnd(o, e) == FlagIf(o, o.nsub > 0 /\ o.ndone # o.nsub, "C05_CompletesOnce")
 
